@@ -50,25 +50,56 @@ func (w *writerA) controlHeader(ruleHdr, ruleB0, ruleMask string) {
 				continue
 			}
 			client := srvF
-			wantParts := 2
-			if client {
-				wantParts = 3
+			// flatten the appended parts into a byte layout: single bytes (variadic appends), a 4-byte key slice, the payload
+			type elem struct {
+				kind string // "byte", "key", "data"
+				t    *core.Term
 			}
-			if len(parts) != wantParts {
-				ok, why = false, fmt.Sprintf("control frame consists of %d appended parts on a %s path (want header%s, payload)", len(parts), map[bool]string{true: "client", false: "server"}[client], map[bool]string{true: ", key", false: ""}[client])
+			var lay []elem
+			flat := true
+			for _, part := range parts {
+				switch {
+				case part.Kind == core.KParam && part.Ref == dataP:
+					lay = append(lay, elem{"data", part})
+				case part.Kind == core.KSlice && part.Args[0].Kind == core.KAlloc:
+					al := part.Args[0]
+					L, isC := x.Len(part).Int64()
+					if !isC {
+						flat = false
+						break
+					}
+					if storedAt(p, al, x.T.Int(0), i) != nil {
+						for k := int64(0); k < L; k++ {
+							b := storedAt(p, al, x.T.Int(k), i)
+							if b == nil {
+								flat = false
+								break
+							}
+							lay = append(lay, elem{"byte", b})
+						}
+						break
+					}
+					var whole *core.Term
+					for k := 0; k < i; k++ {
+						if e := &p.Events[k]; e.Kind == core.EvStore && e.Addr == al {
+							whole = e.Val
+						}
+					}
+					if whole == nil || L != 4 {
+						flat = false
+						break
+					}
+					lay = append(lay, elem{"key", whole})
+				default:
+					flat = false
+				}
+			}
+			if !flat || len(lay) < 3 || lay[0].kind != "byte" || lay[1].kind != "byte" {
+				ok, why = false, fmt.Sprintf("cannot identify the layout of the control frame (%d appended parts) on a %s path: want header bytes, key (client), payload", len(parts), map[bool]string{true: "client", false: "server"}[client])
 				continue
 			}
-			hdr := parts[0]
-			if !(hdr.Kind == core.KSlice && hdr.Args[0].Kind == core.KAlloc) {
-				ok, why = false, "cannot identify the two header bytes"
-				continue
-			}
-			b0 := storedAt(p, hdr.Args[0], x.T.Int(0), i)
-			b1 := storedAt(p, hdr.Args[0], x.T.Int(1), i)
-			if b0 == nil || b1 == nil || x.Len(hdr) != x.T.Int(2) {
-				ok, why = false, "control frame header is not exactly two bytes"
-				continue
-			}
+			b0, b1 := lay[0].t, lay[1].t
+			rest := lay[2:]
 			// byte 0
 			for _, op := range []int64{8, 9, 10} {
 				v, okE := x.Eval(b0, func(t *core.Term) (constant.Value, bool) {
@@ -96,8 +127,8 @@ func (w *writerA) controlHeader(ruleHdr, ruleB0, ruleMask string) {
 			if (mb == 0x80) != client || (mb != 0 && mb != 0x80) {
 				ok, why = false, "control frame mask bit does not match the role"
 			}
-			// payload part is the data parameter
-			if pl := parts[len(parts)-1]; !(pl.Kind == core.KParam && pl.Ref == dataP) {
+			// payload part is the data parameter, last
+			if rest[len(rest)-1].kind != "data" {
 				ok, why = false, "control frame payload is not the data argument"
 			}
 			var keyCalls, maskCalls []*core.Event
@@ -121,17 +152,21 @@ func (w *writerA) controlHeader(ruleHdr, ruleB0, ruleMask string) {
 				continue
 			}
 			K := keyCalls[0].Result
-			key := parts[1]
 			keyOK := false
-			if key.Kind == core.KSlice && key.Args[0].Kind == core.KAlloc {
-				for k := 0; k < i; k++ {
-					if e := &p.Events[k]; e.Kind == core.EvStore && e.Addr == key.Args[0] && e.Val == K {
-						keyOK = true
+			switch {
+			case len(rest) == 2 && rest[0].kind == "key" && rest[0].t == K:
+				keyOK = true
+			case len(rest) == 5:
+				keyOK = true
+				for k := 0; k < 4; k++ {
+					b := rest[k].t
+					if !(rest[k].kind == "byte" && b.Kind == core.KIndex && b.Args[0] == K && func() bool { v, isC := b.Args[1].Int64(); return isC && v == int64(k) }()) {
+						keyOK = false
 					}
 				}
 			}
 			if !keyOK {
-				ok, why = false, "the key bytes in the control frame are not the fresh newMaskKey() result"
+				ok, why = false, "the bytes between the header and the payload of a client control frame are not the 4 bytes of the fresh newMaskKey() result"
 			}
 			mc := maskCalls[0]
 			if mc.Args[0] != K {
@@ -143,7 +178,7 @@ func (w *writerA) controlHeader(ruleHdr, ruleB0, ruleMask string) {
 			pl := mc.Args[2]
 			if !(pl.Kind == core.KSlice && pl.Args[0] == buf && pl.Args[2].Kind == core.KNone) {
 				ok, why = false, "control masking does not cover the frame's payload"
-			} else if lo, isK := pl.Args[1].Int64(); !isK || lo != 6 {
+			} else if lo, isK := x.StripWiden(pl.Args[1]).Int64(); !isK || lo != 6 {
 				ok, why = false, "control masking does not start after the 2 header bytes and the 4 key bytes"
 			}
 		}
@@ -408,10 +443,8 @@ func (w *writerA) maskImpl(rule string) {
 				ok, why = false, "raw pointer store not based on an element address"
 				continue
 			}
-			if z, isC := base.Args[1].Int64(); !isC || z != 0 {
-				ok, why = false, "raw pointer base is not &b[0]"
-			}
-			B := base.Args[0]
+			// &b[0] of a sub-slice b = B[k:] is the canonical address &B[k]: the room after it is len(B) - k
+			B, kOff := base.Args[0], base.Args[1]
 			if off.Kind != core.KFresh {
 				ok, why = false, "raw pointer offset is not the loop counter"
 				continue
@@ -441,7 +474,11 @@ func (w *writerA) maskImpl(rule string) {
 			// guard: off < (len(B)/W)*W
 			x := p.X
 			wT := x.T.Int(W)
-			bound := x.Bin(token.MUL, x.Bin(token.QUO, x.Len(B), wT, types.Typ[types.Int]), wT, types.Typ[types.Int])
+			room := x.Len(B)
+			if z, isC := kOff.Int64(); !isC || z != 0 {
+				room = x.Bin(token.SUB, room, x.StripWiden(kOff), types.Typ[types.Int])
+			}
+			bound := x.Bin(token.MUL, x.Bin(token.QUO, room, wT, types.Typ[types.Int]), wT, types.Typ[types.Int])
 			if !hasLit(p, ev.NLits, true, func(t *core.Term) bool { return t.Kind == core.KLt && t.Args[0] == off && t.Args[1] == bound }) {
 				ok, why = false, fmt.Sprintf("the word store is not guarded by i < (len(b)/%d)*%d for the slice whose &b[0] is used", W, W)
 			}
